@@ -1,9 +1,9 @@
 SPECIFICATION Spec
 CONSTANTS
   Dev_h12 = FALSE
-  Dev_h13 = TRUE
-  Dev_t127 = TRUE
-  Dev_mdict = TRUE
-  Dev_dparr = TRUE
+  Dev_h13 = FALSE
+  Dev_t127 = FALSE
+  Dev_mdict = FALSE
+  Dev_dparr = FALSE
 POSTCONDITION Consumed
 CHECK_DEADLOCK FALSE
